@@ -33,7 +33,7 @@ def run_keys(ctx, pt):
     a, kl = pt
     bl = H.blocklen(a)
     ctx.shape((a, (kl > bl) - (kl < bl)))
-    for key in (ramp(kl, 3, 1), expander(kl, 1)):
+    for key in (ramp(kl, 3, 1), expander(kl, 1)) + ((bytes(kl), b'\xff' * kl, b'\x36' * kl, b'\x5c' * kl) if kl in (1, bl // 2, bl, bl + 1) else ()):
         for m in (b'', b'abc', ramp(bl, 5, 2), expander(bl + 1, 2)) + ((expander(5 * bl - 1, 4),) if kl in (0, 1, bl, bl + 1, 3 * bl) else ()):
             r = ctx.attempt(lambda: HMAC(H.make(a), key)(m))
             cls = 'long-key' if kl > bl else ('block-key' if kl == bl else 'short-key')
@@ -58,9 +58,18 @@ class KeySys(HSystem):
         return (o['key'], bytes(o['o'].K))
 
     def events(self, o):
-        return [('setkey', k) for k in self.keys] + [('mac', 0), ('mac', 1)]
+        return [('setkey', k) for k in self.keys] + [('mac', 0), ('mac', 1), ('setkey-same-bytearray', 'short'), ('setkey-same-bytearray', 'long')]
 
     def apply(self, o, ev):
+        if ev[0] == 'setkey-same-bytearray':
+            # the caller keeps one mutable key buffer, overwrites it in place and sets it again
+            buf = o.setdefault('buf', bytearray(b'\x11' * len(self.keys[ev[1]])))
+            if len(buf) != len(self.keys[ev[1]]):
+                buf = o['buf'] = bytearray(b'\x11' * len(self.keys[ev[1]]))
+                o['o'].setkey(buf)
+            buf[:] = self.keys[ev[1]]
+            o['key'] = ev[1]
+            return o['o'].setkey(buf)
         if ev[0] == 'setkey':
             o['key'] = ev[1]
             return o['o'].setkey(self.keys[ev[1]])
@@ -91,7 +100,7 @@ def subchecks():
         Sub('key-lengths', pts_keys, run_keys, engine='P',
             bound='13 hashes (MD4, MD5, SHA-1, SHA-224/256/384/512, SHA-512/224, SHA-512/256, BLAKE-224/256/384/512) x every key length 0..3 blocks (quick: 17 lengths around 0, the digest size, 1, 2 and 3 blocks) x 2 key patterns x 4 messages (empty, 3 bytes, one block, one block+1; 5 blocks-1 at 5 key lengths)'),
         hsub('setkey-histories', systems, lambda tier: 3 if tier == 'quick' else 4,
-             bound='one HMAC object per hash (quick: 5 hashes), events setkey(short/exact/long/empty/2 blocks) and two MACs, all histories to depth 3 (thorough 4), state = (key class, stored key)'),
+             bound='one HMAC object per hash (quick: 5 hashes), events setkey(short/exact/long/empty/2 blocks), setkey with one caller-owned bytearray overwritten in place, and two MACs, all histories to depth 3 (thorough 4), state = (key class, stored key)'),
     ]
 
 
